@@ -18,14 +18,14 @@ def correspondence(ctx):
     lines = []
     n = 800 if ctx.quick() else 12000
     for i in range(n):
-        variant = ["hist", "poison", "static", "align", "outcap", "hist", "poison", "outcapE"][i % 8]
+        variant = ["hist", "poison", "static", "align", "outcap", "histnr", "poison", "outcapE"][i % 8]
         p = frames.param_vector(rng, True, allow_fmt=False)
         p.pop(400, None)
         size = rng.choice([1000, 40000, 150000, 300000, 700000])
         if variant == "poison" and rng.random() < 0.6:
             p = {100: rng.choice([13, 16, 17, 19]), 105: 3}        # 3-byte hash table in play (btlazy2 / opt parsers)
             size = rng.choice([100000, 200000])
-        dsz = rng.choice([0, 0, 0, 2000, 65536]) if variant in ("hist", "poison") else 0
+        dsz = rng.choice([0, 0, 0, 2000, 65536]) if variant in ("hist", "histnr", "poison") else 0
         if variant == "poison" and dsz:
             p[1001] = rng.choice([0, 2])      # default / force-copy of the CDict tables
         ins = ",".join(str(rng.choice([1000, 40000, 131072, 200000, 1000000])) for _ in range(rng.randint(1, 3)))
